@@ -136,6 +136,7 @@ FIXED = [
     ("C20", "5f9722b", "`'aXbXc'.replaceAll('X', \"$'\")` kept the two characters `$'`; `'$1'.replace(/(\\$)1/, '[$&]')` expanded the `$1` inside the substituted match"),
     ("C20", "3750543", "`var r=/b/gu; r.test('\\u{1F600}b'); r.lastIndex` was 2 where exec leaves 3: test() had its own copy of the bookkeeping without the UTF-16 conversion of unicode mode"),
     ("C08", "0f27ed1", "`Object.create(p, {x: {value: 5}}).x` ran the getter of p (own data did not shadow an inherited accessor); `{get x(){return 2}, x: 1}.x` was 2; `delete o.x` kept an accessor; `'x' in {get x(){}}` was false"),
+    ("C16", "b54eda3", "`'abc'.replace(/b/, function(m){return m.toUpperCase()})` was 'a[object Object]c': a function given as the replacement was converted to text instead of being called"),
 ]
 
 
